@@ -43,6 +43,8 @@ type BrokerRow struct {
 // make sure that metric and shard id will be overwritten manually
 func (row *BrokerRow) FromBlock(block []byte) {
 	row.buffer = encoding.MustCopy(row.buffer, block)
+	// NOTE: row is reused(batch rows under pool), need reset out of time range flag of previous row
+	row.IsOutOfTimeRange = false
 	size := flatbuffers.GetSizePrefix(row.buffer, 0)
 	partition := row.buffer[flatbuffers.SizeUOffsetT : flatbuffers.SizeUOffsetT+size]
 	row.m.Init(partition, flatbuffers.GetUOffsetT(partition))
